@@ -11,7 +11,7 @@ from __future__ import annotations
 import pynguin.configuration as config
 import pynguin.ga.algorithms.generationalgorithm as ga_mod
 import pynguin.ga.stoppingcondition as sc_mod
-from engines.prelude import pick, reach, vacuous
+from engines.prelude import pick, reach
 from harness import _C17_stubs as S
 from pynguin.testcase.execution import ExecutionResult
 
